@@ -1,0 +1,58 @@
+//go:build verif
+
+package ringbuffer
+
+// Contracts for RingBuffer (property C12: overwrite-oldest ring), read by the verification
+// machinery in /verif. Comment-only file.
+//
+// Abstract view: ghost history hist[0..n) of everything ever added; the buffer holds the last
+// min(n, capacity) of them. Slot j holds hist[n-1-d] where d is j's distance below pos-1 (wrapping once).
+
+/*@
+type RingBuffer
+  ghost hist (Array Int U_T)
+  ghost n Int
+  invariant self.capacity >= 1 && len(self.buffer) == self.capacity && 0 <= self.pos && self.pos < self.capacity
+  invariant 0 <= self.n && self.size == (self.n < self.capacity ? self.n : self.capacity)
+  invariant forall j Int :: 0 <= j && j < self.capacity && (j < self.pos ? self.pos - 1 - j : self.pos - 1 - j + self.capacity) < self.size ==> self.buffer[j] == sel(self.hist, self.n - 1 - (j < self.pos ? self.pos - 1 - j : self.pos - 1 - j + self.capacity))
+  monitor mutex guards pos, size, hist, n, elems:buffer
+  invariant inv(self)
+
+func NewRingBuffer
+  requires capacity >= 1                       -- Add on a ring of capacity 0 would index an empty slice
+  ghost at return: r0.n = 0
+  ensures r0 != nil && fresh(r0) && inv(r0) && r0.capacity == capacity && unlocked(r0.mutex)
+
+func RingBuffer.Add
+  requires r != nil && unlocked(r.mutex)
+  modifies r.pos, r.size, r.hist, r.n, elems(r.buffer)
+  ghost at return: r.hist = upd(r.hist, r.n, element)
+  ghost at return: r.n = r.n + 1
+  ensures unlocked(r.mutex)
+
+func RingBuffer.Add#sequential
+  opt sequential
+  requires r != nil && unlocked(r.mutex)
+  modifies r.pos, r.size, r.hist, r.n, elems(r.buffer)
+  ghost at return: r.hist = upd(r.hist, r.n, element)
+  ghost at return: r.n = r.n + 1
+  ensures r0 && r.n == old(r.n) + 1 && sel(r.hist, old(r.n)) == element
+  ensures forall k Int :: 0 <= k && k < old(r.n) ==> sel(r.hist, k) == sel(old(r.hist), k)
+  ensures inv(r)
+
+-- newest to oldest: result[k] is the k-th most recently added element
+func RingBuffer.ToSlice#sequential
+  opt sequential
+  requires r != nil && unlocked(r.mutex)
+  loop 1 invariant 0 <= j && j < r.size && len(result) == r.size && fresh(result) && 0 <= i && i < r.capacity
+  loop 1 invariant j < r.capacity ==> i == (r.pos - 1 - j >= 0 ? r.pos - 1 - j : r.pos - 1 - j + r.capacity)
+  loop 1 invariant forall k Int :: 0 <= k && k < j ==> result[k] == sel(r.hist, r.n - 1 - k)
+  ensures len(r0) == r.size && r.size == (r.n < r.capacity ? r.n : r.capacity)
+  ensures forall k Int :: 0 <= k && k < len(r0) ==> r0[k] == sel(r.hist, r.n - 1 - k)
+
+func RingBuffer.ToSlice
+  requires r != nil && unlocked(r.mutex)
+  modifies r.pos, r.size, r.hist, r.n, elems(r.buffer)
+  loop 1 invariant 0 <= j && j < r.size && len(result) == r.size && fresh(result) && 0 <= i && i < r.capacity && rheld(r.mutex) && inv(r)
+  ensures unlocked(r.mutex)
+@*/
